@@ -175,3 +175,79 @@ def gen_storage(items):
                 raise Fail(f'{f}::{fn} no longer creates its tracked SegmentMeta the way the model assumes')
         return DL('META_SOURCE_SITES', [n_track, n_map], 'index_meta.rs: number of `inventory.track(` sites (new_segment_meta, InnerSegmentMeta::track used by deserialize) and of `tracked.map(` sites (with_max_doc, with_delete_meta): the only places a tracked SegmentMeta comes to life')
     items.append(meta_sources)
+
+    # ---- C10 round 2: where files are opened for writing, where metas are constructed ----
+    import glob as _glob
+
+    def non_test(path):
+        text = strip_comments(src(path))
+        m = re.search(r'#\[cfg\(test\)\]\s*(pub(\(crate\))?\s+)?mod\s', text)
+        return text if not m else text[:m.start()]
+
+    def rs_files():
+        out = []
+        for p in sorted(_glob.glob(os.path.join(REPO, 'src', '**', '*.rs'), recursive=True)):
+            rel = os.path.relpath(p, REPO)
+            if rel.startswith('src/directory/') or rel == 'src/verif.rs' or '/tests' in rel or rel.endswith('tests.rs'):
+                continue
+            out.append(rel)
+        return out
+
+    def open_write_sites():
+        comp_order = ['Postings', 'Positions', 'FastFields', 'FieldNorms', 'Terms', 'Store', 'TempStore', 'Delete']
+        comps, other = [], []
+        for rel in rs_files():
+            for m in re.finditer(r'\.open_write\(\s*([^)]*)\)', non_test(rel)):
+                arg = m.group(1).strip()
+                a = arg.replace('SegmentComponent::', '')
+                if a in comp_order:
+                    comps.append(comp_order.index(a))
+                elif rel == 'src/index/segment.rs' and arg == '&path':
+                    continue
+                else:
+                    other.append(f'{rel}: open_write({arg})')
+        f = 'src/index/segment.rs'
+        body = fn_body(f, 'open_write')
+        if not (re.search(r'let\s+path\s*=\s*self\.relative_path\(component\)', body) and re.search(r'\.open_write\(&path\)', body)):
+            raise Fail(f'{f}::open_write no longer opens self.relative_path(component)')
+        if not re.search(r'self\.meta\.relative_path\(component\)', fn_body(f, 'relative_path')):
+            raise Fail(f'{f}::relative_path no longer delegates to its SegmentMeta')
+        if not re.search(r'include_temp_doc_store:\s*Arc::new\(AtomicBool::new\(true\)\)', fn_body('src/index/index_meta.rs', 'new_segment_meta')):
+            raise Fail('index_meta.rs::new_segment_meta no longer starts with include_temp_doc_store = true')
+        if other:
+            raise Fail('files opened for writing outside Segment::open_write: ' + '; '.join(other))
+        return (DL('SEGMENT_OPEN_WRITE_SITES', sorted(comps), 'component index (SegmentComponent::iterator order) of every non-test `.open_write(<component>)` call in src/ outside src/directory: all go through Segment::open_write, which opens self.meta.relative_path(component)')
+                + '\ndef OPEN_WRITE_OTHER_SITES : Nat := 0  -- non-test open_write calls with a path that is not a component of the calling Segment')
+    items.append(open_write_sites)
+
+    def new_meta_calls():
+        codes = []
+        for rel in rs_files():
+            text = non_test(rel)
+            for m in re.finditer(r'\.new_segment_meta\(\s*([^,]+),', text):
+                arg = m.group(1).strip()
+                if arg == 'SegmentId::generate_random()':
+                    codes.append(1)
+                elif arg == 'merged_segment_id':
+                    # the id of a Segment created by new_segment() earlier in the same function and still alive
+                    before = text[:m.start()]
+                    fn_start = before.rfind('\nfn ') if before.rfind('\nfn ') > before.rfind('\npub fn ') else before.rfind('\npub fn ')
+                    scope = before[fn_start:]
+                    if not (re.search(r'let\s+merged_segment\s*=\s*\w+\.new_segment\(\)', scope) and re.search(r'let\s+merged_segment_id\s*=\s*merged_segment\.id\(\)', scope)):
+                        raise Fail(f'{rel}: new_segment_meta(merged_segment_id, ..) without a live merged_segment from new_segment()')
+                    codes.append(2)
+                elif arg == 'segment_id' and rel == 'src/index/index.rs':
+                    continue  # Index::new_segment_meta: pass-through wrapper
+                else:
+                    raise Fail(f'{rel}: new_segment_meta({arg}, ..): unclassified constructor call')
+        return DL('NEW_SEGMENT_META_CALLS', sorted(codes), 'classification of every non-test new_segment_meta call: 1 = fresh random segment id (MetaSource.fresh), 2 = id of a live Segment made by new_segment() in the same function (MetaSource.derived)')
+    items.append(new_meta_calls)
+
+    def managed_atomic_write():
+        f = 'src/directory/managed_directory.rs'
+        codes = ordered_codes(f, 'atomic_write', [
+            (1, r'self\.register_file_as_managed\(path\)'),
+            (2, r'self\.directory\.atomic_write\(path,\s*data\)'),
+        ], 'ManagedDirectory::atomic_write')
+        return DL('MANAGED_ATOMIC_WRITE_STEPS', codes, 'managed_directory.rs::atomic_write in source order: 1 register_file_as_managed, 2 atomic_write of the wrapped directory')
+    items.append(managed_atomic_write)
